@@ -30,7 +30,8 @@ def run(ctx):
         b, st = P.random_custom_basis(rng, 3)
         custom.append(ucfg(sig=[rng.choice((1, -1, 0)) for _ in range(3)], basis=b))
     us += custom
-    rng.shuffle(us)
+    # algebras with the same (p, q, r) but another ordering are built in ONE process (a cache keyed too coarsely shows)
+    us.sort(key=lambda u: (sorted(u['sig']) if u['mode'] == 'sig' else [u['p'], u['q'], u['r']], len(u['basis'])))
     tdir = os.path.join(ctx.work, 'matrix')
     os.makedirs(tdir, exist_ok=True)
     jobs = []
